@@ -512,6 +512,16 @@ class Engine:
             if agg == 'adt':
                 return ('agg', 'adt', rv['adt'], rv['variant'], tuple(zip(rv['field_names'], ops)))
             if agg == 'closure':
+                snaps = []
+                for o in ops:
+                    if o[0] == 'ref':
+                        root = o[1]
+                        while root[0] in ('fld', 'idx'):
+                            root = root[1]
+                        snaps.append(self._read_lv(st, o[1]) if root[0] == 'L' else o)
+                    else:
+                        snaps.append(o)
+                st.events.append(('closure', rv['closure'], tuple(snaps)))
                 return ('agg', 'closure', rv['closure'], None, tuple(('upvar%d' % i, o) for i, o in enumerate(ops)))
             return ('unk', 'aggregate', rv.get('text', ''))
         if k == 'repeat':
